@@ -4,7 +4,7 @@
 From Coq Require Import ExtrOcamlBasic.
 From Coq Require Import List ZArith String.
 From CF Require Import Base.Mem Model.Tables Model.TableSem Model.Prim Model.SimdApi Model.Kernels Model.Sym
-     Model.Regs Model.Exports Model.Safe.
+     Model.Regs Model.Exports Model.Safe Model.Spec.
 From CF Require Import Gen.GenExports Gen.GenSafe Gen.GenMacros Gen.GenDispatch.
 (* the export table without its (long) identifier strings: row i of GenExports.exports *)
 Definition export_keys : list (ty * reg * kernel) :=
@@ -29,10 +29,13 @@ Definition the_chain : list chain_entry := Eval vm_compute in dispatch_chain.
 Definition run_safe_int := run_safe_core the_chain run_export_int.
 Definition run_safe_f32 := run_safe_core the_chain run_export_f32.
 Definition run_safe_f64 := run_safe_core the_chain run_export_f64.
+Definition spec_f32 := @spec_float 24 128 _ _.
+Definition spec_f64 := @spec_float 53 1024 _ _.
 Extraction Language OCaml.
 Cd "../.build/ocaml".
 Extraction "model.ml" sym_run all_kernels export_keys run_key_int run_key_f32 run_key_f64
            safe_cores run_safe_int run_safe_f32 run_safe_f64 select_chain the_chain
+           spec_int spec_f32 spec_f64
            f32_of_bits f64_of_bits bits_of_f32 bits_of_f64 int_ops f32_ops f64_ops int_math float_math
            width int_signed.
 Cd "../../coq".
